@@ -65,8 +65,8 @@ Why(b, obs) ==
   \o (IF obs.res = "dup" /\ MayFail(b) /\ obs.key \notin DupNameable(b) THEN "C17 error names a key that was not repeated; " ELSE "")
   \o (IF okres /\ MustFail(b) THEN "C17 token built although a key was supplied twice (or after a failed build); " ELSE "")
   \o (IF okres /\ b.layer = "prelude" /\ (has("exp") <=> b.nonexp) THEN "C13 exp present iff not acknowledged is violated; " ELSE "")
-  \o (IF okres /\ b.layer = "prelude" /\ ~MustFail(b) /\ P # Payload(b) THEN "C13 C17 payload differs from defaults/caller values; " ELSE "")
-  \o (IF okres /\ b.layer # "prelude" /\ P # Payload(b) THEN "C14 payload differs from the claims that were set; " ELSE "")
+  \o (IF okres /\ b.layer = "prelude" /\ ~MustFail(b) /\ P # Payload(b) THEN "C13 C17 C01 C02 payload differs from defaults/caller values; " ELSE "")
+  \o (IF okres /\ b.layer # "prelude" /\ P # Payload(b) THEN "C14 C01 C02 payload differs from the claims that were set; " ELSE "")
   \o (IF obs.res \notin {"ok", "dup", "unreadable"} THEN "C13 C14 C17 C09 build returned neither a token nor the duplicate-claim error: " \o obs.res \o "; " ELSE "")
 
 \* first call whose observation the specification does not allow: [step, why], step = 0 if none
